@@ -32,32 +32,52 @@ func c10(r *engine.Report, p *engine.Program) {
 	// R1 who-may
 	checkCallers(r, p, "R1-who-may", "(*netceptor.Netceptor).translateDataFromMessage", "(*netceptor.Netceptor).forwardMessage")
 	checkCallers(r, p, "R1-who-may", "(*netceptor.Netceptor).forwardMessage", "(*netceptor.Netceptor).handleMessageData")
-	var senders []string
 	var fmSend ssa.Instruction
 	var fmSendVal ssa.Value
+	nSend := 0
 	for _, a := range p.FieldAccesses(writeChan) {
 		if a.Kind != engine.AccSend || engine.IsMock(a.Fn) {
 			continue
 		}
-		senders = append(senders, engine.FuncName(a.Fn))
-		if a.Fn == fm {
-			fmSend = a.Instr
-			switch x := a.Instr.(type) {
-			case *ssa.Send:
-				fmSendVal = x.X
-			case *ssa.Select:
-				for _, st := range x.States {
-					if f, _ := engine.FieldOfLoad(st.Chan); f == writeChan && st.Dir == types.SendOnly {
-						fmSendVal = st.Send
-					}
+		nSend++
+		var val ssa.Value
+		switch x := a.Instr.(type) {
+		case *ssa.Send:
+			val = x.X
+		case *ssa.Select:
+			for _, st := range x.States {
+				if f, _ := engine.FieldOfLoad(st.Chan); f == writeChan && st.Dir == types.SendOnly {
+					val = st.Send
 				}
 			}
 		}
+		if a.Fn == fm {
+			fmSend, fmSendVal = a.Instr, val
+		}
+		kinds := map[string]bool{}
+		bufferSources(p, a.Fn, val, 0, kinds, map[string]bool{})
+		var ks []string
+		for k := range kinds {
+			ks = append(ks, k)
+		}
+		sort.Strings(ks)
+		ok := true
+		for _, k := range ks {
+			switch k {
+			case "control-encoder", "relayed-advertisement":
+			case "data-encoder":
+				if a.Fn != fm {
+					ok = false
+				}
+			default:
+				ok = false
+			}
+		}
+		r.Check("R1-who-may", fmt.Sprintf("%s: buffer sent to a connection", engine.FuncName(a.Fn)), a.Instr.Pos(), ok && len(ks) > 0,
+			fmt.Sprintf("the bytes sent come from %v (control-message encoder with a constant non-data type, the service-advertisement relay, or — in forwardMessage only — the data encoder)", ks),
+			fmt.Sprintf("a buffer of kind %v is sent to a connection outside forwardMessage: a second relay path for data packets that bypasses the hop budget", ks))
 	}
-	sort.Strings(senders)
-	want := []string{"(*netceptor.Netceptor).flood$1", "(*netceptor.Netceptor).forwardMessage", "(*netceptor.Netceptor).sendInitialConnectMessage", "(*netceptor.Netceptor).sendRejectMessage"}
-	r.Check("R1-who-may", "connInfo.WriteChan: senders", token.NoPos, setEq(senders, want),
-		"the only functions sending to a connection are flood (control messages), sendInitialConnectMessage, sendRejectMessage and forwardMessage", fmt.Sprintf("senders are %v, frozen table is %v", senders, want))
+	r.Check("R1-who-may", "connInfo.WriteChan: send sites found", token.NoPos, nSend >= 4, fmt.Sprintf("%d send sites classified", nSend), fmt.Sprintf("only %d send sites found, expected at least 4", nSend))
 	// no control-message encoder emits type 0
 	cData := p.Const("netceptor", "MsgTypeData")
 	nEnc := 0
@@ -326,4 +346,113 @@ func noticeFieldsCopy(p *engine.Program, call ssa.CallInstruction, md ssa.Value)
 		}
 	}
 	return ""
+}
+
+// bufferSources classifies where the bytes of v come from: "control-encoder"
+// (translateStructToNetwork), "data-encoder" (translateDataFromMessage), "relayed-advertisement"
+// (the data parameter of handleServiceAdvertisement, which checks its type byte), or
+// "raw:<desc>". Parameters and captured variables are followed to every call site (depth ≤ 4).
+func bufferSources(p *engine.Program, fn *ssa.Function, v ssa.Value, depth int, out map[string]bool, seen map[string]bool) {
+	key := engine.FuncName(fn) + "|" + v.Name()
+	if seen[key] || depth > 4 {
+		if depth > 4 {
+			out["raw:too-deep"] = true
+		}
+		return
+	}
+	seen[key] = true
+	v = engine.Unwrap(v)
+	switch x := v.(type) {
+	case *ssa.Extract:
+		if c, ok := x.Tuple.(*ssa.Call); ok {
+			switch {
+			case engine.IsCallTo(c.Common(), "(*netceptor.Netceptor).translateStructToNetwork"):
+				out["control-encoder"] = true
+				return
+			case engine.IsCallTo(c.Common(), "(*netceptor.Netceptor).translateDataFromMessage"):
+				out["data-encoder"] = true
+				return
+			}
+		}
+		out["raw:"+x.String()] = true
+	case *ssa.Phi:
+		for _, e := range x.Edges {
+			bufferSources(p, fn, e, depth, out, seen)
+		}
+	case *ssa.Parameter:
+		top := x.Parent()
+		if engine.FuncName(top) == "(*netceptor.Netceptor).handleServiceAdvertisement" && x.Name() == "data" {
+			out["relayed-advertisement"] = true
+			return
+		}
+		idx := -1
+		for i, prm := range top.Params {
+			if prm == x {
+				idx = i
+			}
+		}
+		obj, _ := top.Object().(*types.Func)
+		n := 0
+		if obj != nil && idx >= 0 {
+			for _, cs := range p.CallSitesOf(obj) {
+				if engine.IsMock(cs.Parent()) {
+					continue
+				}
+				n++
+				bufferSources(p, cs.Parent(), cs.Common().Args[idx], depth+1, out, seen)
+			}
+		}
+		if n == 0 {
+			// an anonymous function's parameter: arguments at its go/call sites in the parent
+			if par := top.Parent(); par != nil {
+				for _, ci := range engine.CallsIn(par) {
+					if mc, ok := ci.Common().Value.(*ssa.MakeClosure); ok && mc.Fn == ssa.Value(top) && idx < len(ci.Common().Args) {
+						n++
+						bufferSources(p, par, ci.Common().Args[idx], depth+1, out, seen)
+					}
+					if ci.Common().Value == ssa.Value(top) && idx < len(ci.Common().Args) {
+						n++
+						bufferSources(p, par, ci.Common().Args[idx], depth+1, out, seen)
+					}
+				}
+			}
+		}
+		if n == 0 {
+			out["raw:param "+x.Name()+" of "+engine.FuncName(top)] = true
+		}
+	case *ssa.UnOp:
+		// captured variable
+		if fv, ok := x.X.(*ssa.FreeVar); ok {
+			cl := fv.Parent()
+			idx := -1
+			for i, f := range cl.FreeVars {
+				if f == fv {
+					idx = i
+				}
+			}
+			if par := cl.Parent(); par != nil && idx >= 0 {
+				for _, b := range par.Blocks {
+					for _, in := range b.Instrs {
+						if mc, ok := in.(*ssa.MakeClosure); ok && mc.Fn == ssa.Value(cl) && idx < len(mc.Bindings) {
+							if al, ok := mc.Bindings[idx].(*ssa.Alloc); ok {
+								if sv := storedVal(al); sv != nil {
+									bufferSources(p, par, sv, depth+1, out, seen)
+									return
+								}
+							}
+						}
+					}
+				}
+			}
+		}
+		if al, ok := x.X.(*ssa.Alloc); ok {
+			if sv := storedVal(al); sv != nil {
+				bufferSources(p, fn, sv, depth, out, seen)
+				return
+			}
+		}
+		out["raw:"+x.String()] = true
+	default:
+		out["raw:"+v.String()] = true
+	}
 }
